@@ -505,7 +505,7 @@ func (e *consEnv) others() []int {
 	return o
 }
 
-var nodeStates = []string{"newheight", "propose-empty", "propose-partial", "proposal", "prevotes", "precommits", "round1"}
+var nodeStates = []string{"newheight", "newheight", "propose-empty", "propose-partial", "proposal", "prevotes", "precommits", "round1"}
 
 // drive puts the node into one of the named states using only valid traffic and harness-fired timeouts.
 func (e *consEnv) drive(state string) {
